@@ -147,7 +147,7 @@ def main(tier):
         run.inconclusive_because(f"positive control did not fire: {b}")
     run.counters["positive_controls"] = 19 - len(bad)
     plan = PLAN[tier]
-    run_shards(run, "c01", plan["shards"], timeout_s=600 if tier == "quick" else 7200)
+    run_shards(run, "c01", plan["shards"], timeout_s=3600 if tier == "quick" else 7200)
     if run.counters.get("irvm_judged", 0) < 500 or run.counters.get("jit_judged", 0) < 100:
         run.inconclusive_because("too few kernels were produced and judged")
     from .. import contracts_leg
